@@ -77,5 +77,5 @@ func lognand(s *slip.Scope, a1, a2 slip.Object, depth int) (result slip.Object) 
 func bigLognand(b1, b2 *big.Int) slip.Object {
 	var bi big.Int
 	bi.And(b1, b2)
-	return complement((*slip.Bignum)(&bi)).(*slip.Bignum)
+	return reduceInteger(bi.Not(&bi))
 }
